@@ -38,6 +38,7 @@ FIXES = {  # subject prefix -> properties whose check must fire when the fix is 
     "fix: computing mixed": ["C14"],
     "fix: cycle reporting": ["C07"],
     "fix: delayed attribute": ["C15"],
+    "fix: Generator.choice": ["C28"],
 }
 
 
